@@ -9,6 +9,7 @@ import (
 	"crypto/rsa"
 	"crypto/x509"
 	"crypto/x509/pkix"
+	"encoding/asn1"
 	"encoding/pem"
 	"fmt"
 	"io"
@@ -287,7 +288,7 @@ func c19Gen(t *rapid.T) c19Case {
 		c.Algs = rapid.SampledFrom([][]string{{"sha256", "sha512"}, {"sha256"}, {"sha512"}, {}, nil, {"sha512", "sha256"}}).Draw(t, "algs")
 	}
 	if rapid.IntRange(0, 4).Draw(t, "neg") == 0 {
-		c.Negative = rapid.SampledFrom([]string{"truncated", "badbase64", "encrypted-pkcs8", "encrypted-legacy", "csr", "x25519", "empty", "nil-reader", "missing-file", "no-pem", "wrong-scheme", "wrong-scheme", "bad-alg", "bad-alg", "empty-scheme", "flipped", "header-only"}).Draw(t, "negative")
+		c.Negative = rapid.SampledFrom([]string{"truncated", "badbase64", "encrypted-pkcs8", "encrypted-legacy", "csr", "x25519", "empty", "nil-reader", "missing-file", "no-pem", "wrong-scheme", "wrong-scheme", "bad-alg", "bad-alg", "empty-scheme", "flipped", "header-only", "pkcs1-public", "dh-parameters", "dh-parameters"}).Draw(t, "negative")
 	}
 	return c
 }
@@ -531,6 +532,26 @@ func c19Negative(c c19Case, k *hx.TestKey, dir string, r *hx.Rec) error {
 			return nil
 		}
 		data = pem.EncodeToMemory(&pem.Block{Type: "PUBLIC KEY", Bytes: der})
+	case "pkcs1-public":
+		// an RSA public key in the PKCS#1 form (RSA PUBLIC KEY): not one of the supported forms
+		rk, e := c19Key("rsa2048", 0)
+		if e != nil {
+			return nil
+		}
+		data = pem.EncodeToMemory(&pem.Block{Type: "RSA PUBLIC KEY", Bytes: x509.MarshalPKCS1PublicKey(&rk.Priv.(*rsa.PrivateKey).PublicKey)})
+	case "dh-parameters":
+		// Diffie-Hellman parameters (a prime and a generator): two integers in a sequence, no key
+		type dhParams struct {
+			P *big.Int
+			G int
+		}
+		prime, _ := new(big.Int).SetString("FFFFFFFFFFFFFFFFADF85458A2BB4A9AAFDC5620273D3CF1D8B9C583CE2D3695A9E13641146433FBCC939DCE249B3EF97D2FE363630C75D8F681B202AEC4617AD3DF1ED5D5FD65612433F51F5F066ED0856365553DED1AF3B557135E7F57C935984F0C70E0E68B77E2A689DAF3EFE8721DF158A136ADE73530ACCA4F483A797ABC0AB182B324FB61D108A94BB2C8E3FBB96ADAB760D7F4681D4F42A3DE394DF4AE56EDE76372BB190B07A7C8EE0A6D709E02FCE1CDF7E2ECC03404CD28342F619172FE9CE98583FF8E4F1232EEF28183C3FE3B1B4C6FAD733BB5FCBC2EC22005C58EF1837D1683B2C6F34A26C1B2EFFA886B423861285C97FFFFFFFFFFFFFFFF", 16)
+		der, e := asn1.Marshal(dhParams{P: prime, G: 2})
+		if e != nil {
+			return nil
+		}
+		typ := []string{"DH PARAMETERS", "PUBLIC KEY", "RSA PUBLIC KEY"}[c.Index%3]
+		data = pem.EncodeToMemory(&pem.Block{Type: typ, Bytes: der})
 	case "empty":
 		data = []byte{}
 	case "no-pem":
